@@ -6,9 +6,10 @@ git apply --check "$P" || { echo "patch does not apply"; exit 1; }
 git apply "$P"
 export GOFLAGS=-mod=mod GOPROXY=off
 go build ./... || { echo BUILD FAILED; exit 1; }
-go test -vet=off -count=1 $PK 2>&1 | tail -8
+go test -mod=mod -vet=off -count=1 $PK 2>&1 | tail -8
 cd /verif
 for id in "$@"; do
   ./check $id 2>&1 | grep -E "^(OK|VIOL|INCON|BUILD|---)|hit [1-9][0-9]* times" | sed 's/property=C[0-9]* .*\[KF/[KF/' | cut -c1-260
 done
 git -C /repo status --short | grep -v '^??'
+git -C /repo checkout go.mod go.sum 2>/dev/null
